@@ -166,6 +166,72 @@ int main()
       else
         std::cout << "OK " << hex64(v) << " " << hex_of_bytes(rest_of(in, txt)) << std::endl;
     }
+    else if (c == "draws" && w.size() >= 2)
+    {
+      // vita::random::seed(seed), then the requested draws through the real vita::random / libstdc++ code
+      vita::random::seed(static_cast<unsigned>(u64(w[1])));
+      std::string out;
+      for (std::size_t k(2); k < w.size(); ++k)
+      {
+        std::vector<std::string> f;
+        {
+          std::istringstream ss(w[k]);
+          std::string x;
+          while (std::getline(ss, x, ':')) f.push_back(x);
+        }
+        if (!out.empty()) out += " ";
+        if (f[0] == "i" && f.size() == 3)
+        {
+          auto sh = [](const std::string &s) -> __int128
+          {
+            const bool neg(!s.empty() && s[0] == '-');
+            const __int128 v(static_cast<__int128>(std::stoull(neg ? s.substr(1) : s, nullptr, 16)));
+            return neg ? -v : v;
+          };
+          const __int128 lo(sh(f[1])), hi(sh(f[2]));
+          __int128 v;
+          // the integral types vita instantiates between<> with
+          if (lo >= std::numeric_limits<int>::min() && hi <= std::numeric_limits<int>::max())
+            v = vita::random::between<int>(static_cast<int>(lo), static_cast<int>(hi));
+          else if (lo >= 0 && hi <= std::numeric_limits<unsigned>::max())
+            v = vita::random::between<unsigned>(static_cast<unsigned>(lo), static_cast<unsigned>(hi));
+          else if (lo >= 0 && hi <= static_cast<__int128>(std::numeric_limits<std::uint64_t>::max()))
+            v = vita::random::between<std::uint64_t>(static_cast<std::uint64_t>(lo), static_cast<std::uint64_t>(hi));
+          else
+            v = vita::random::between<long long>(static_cast<long long>(lo), static_cast<long long>(hi));
+          char buf[64];
+          if (v < 0)
+            std::snprintf(buf, sizeof(buf), "i:-%llx", static_cast<unsigned long long>(-v));
+          else
+            std::snprintf(buf, sizeof(buf), "i:%llx", static_cast<unsigned long long>(v));
+          out += buf;
+        }
+        else if (f[0] == "r" && f.size() == 3)
+        {
+          auto d = [](const std::string &s) { const std::uint64_t u(u64(s)); double x; std::memcpy(&x, &u, 8); return x; };
+          const double v(vita::random::between<double>(d(f[1]), d(f[2])));
+          std::uint64_t u;
+          std::memcpy(&u, &v, 8);
+          out += "r:" + (v != v ? std::string("7ff8000000000000") : hex64(u));
+        }
+        else if (f[0] == "b" && f.size() == 2)
+        {
+          const std::uint64_t u(u64(f[1]));
+          double p;
+          std::memcpy(&p, &u, 8);
+          out += vita::random::boolean(p) ? "b:1" : "b:0";
+        }
+        else if (f[0] == "s")
+        {
+          std::discrete_distribution<unsigned> dd({3.0, 1.0, 2.0});
+          (void)dd(vita::random::engine);
+          out += "s";
+        }
+        else
+          out += "?";
+      }
+      std::cout << out << std::endl;
+    }
     else if (c == "showu" && w.size() == 2)
     {
       std::ostringstream os;
